@@ -264,11 +264,13 @@ class _mark_ignore_name(ast.NodeTransformer):
 
 
 class _rewrite_captured_vars(ast.NodeTransformer):
-    def __init__(self, cv: inspect.ClosureVars):
+    def __init__(self, cv: inspect.ClosureVars, inlining: Tuple[Callable, ...] = ()):
         # A variable from an enclosing function hides a global of the same name.
         self._lookup_dict: Dict[str, Any] = dict(cv.globals)
         self._lookup_dict.update(cv.nonlocals)
         self._ignore_stack = []
+        # The helper functions whose bodies we are inside of (a helper can call itself)
+        self._inlining = inlining
 
     def visit_Name(self, node: ast.Name) -> Any:
         if self.is_arg(node.id):
@@ -288,8 +290,19 @@ class _rewrite_captured_vars(ast.NodeTransformer):
                 # If it is something we know how to make into a literal, we just send it down
                 # like that.
                 return as_literal(v)
-            elif callable(v) and ((lm := safe_parse_wrapper(v)) is not None):
-                return lm
+            elif (
+                callable(v)
+                and not any(v is f for f in self._inlining)
+                and ((lm := safe_parse_wrapper(v)) is not None)
+            ):
+                # What the helper's own body captures (globals of its module, variables of
+                # the function it was defined in, further helpers) is resolved where the
+                # helper was defined - not where it is used.
+                try:
+                    helper_vars = global_getclosurevars(v)
+                except Exception:
+                    return lm
+                return _rewrite_captured_vars(helper_vars, self._inlining + (v,)).visit(lm)
             else:
                 # If it is a local function, we need to parse it as an AST
                 return node
